@@ -1,0 +1,51 @@
+//go:build verif
+
+package gnosis
+
+import (
+	"context"
+
+	"github.com/jackc/pgx/v4/pgxpool"
+
+	obskeyper "github.com/shutter-network/rolling-shutter/rolling-shutter/chainobserver/db/keyper"
+	"github.com/shutter-network/rolling-shutter/rolling-shutter/keyper/epochkghandler"
+	"github.com/shutter-network/rolling-shutter/rolling-shutter/medley/broker"
+	"github.com/shutter-network/rolling-shutter/rolling-shutter/medley/identitypreimage"
+	"github.com/shutter-network/rolling-shutter/rolling-shutter/p2p"
+)
+
+// Verification hooks (build tag verif): constructors for types with unexported fields.
+
+func VerifNewHandlers(dbpool *pgxpool.Pool) []p2p.MessageHandler {
+	return []p2p.MessageHandler{&DecryptionKeySharesHandler{dbpool}, &DecryptionKeysHandler{dbpool}}
+}
+
+func VerifNewKeyper(
+	config *Config,
+	dbpool *pgxpool.Pool,
+	trigger chan *broker.Event[*epochkghandler.DecryptionTrigger],
+) *Keyper {
+	return &Keyper{config: config, dbpool: dbpool, decryptionTriggerChannel: trigger, syncMonitor: &SyncMonitor{}}
+}
+
+func (kpr *Keyper) VerifTriggerDecryption(ctx context.Context, slot uint64, nextBlock int64, keyperSet *obskeyper.KeyperSet) error {
+	return kpr.triggerDecryption(ctx, slot, nextBlock, keyperSet)
+}
+
+func (kpr *Keyper) VerifGetDecryptionIdentityPreimages(
+	ctx context.Context, slot uint64, eon int64, txPointer int64,
+) ([]identitypreimage.IdentityPreimage, error) {
+	return kpr.getDecryptionIdentityPreimages(ctx, slot, eon, txPointer)
+}
+
+func VerifGetTxPointer(ctx context.Context, db *pgxpool.Pool, eon int64, maxTxPointerAge int64) (int64, error) {
+	return getTxPointer(ctx, db, eon, maxTxPointerAge)
+}
+
+func VerifComputeIdentitiesHash(identityPreimages []identitypreimage.IdentityPreimage) []byte {
+	return computeIdentitiesHash(identityPreimages)
+}
+
+func VerifMakeSlotIdentityPreimage(slot uint64) identitypreimage.IdentityPreimage {
+	return makeSlotIdentityPreimage(slot)
+}
